@@ -7,15 +7,14 @@ import "github.com/rpcpool/yellowstone-faithful/indexes"
 // C06.frame — writer/reader agreement on the length prefix of a linked-log record.
 // Writer side (LinkedLog.Put): payloadLen = len(compressed)+9, prefix = uvarint(payloadLen),
 // callbackAfter records total = len(prefix)+payloadLen. Reader side (ReadWithSize(offset,total)):
-// skips sizeOfUvarint(total) bytes and reads total-sizeOfUvarint(total) bytes.
+// skips sizeOfLengthPrefix(total) bytes and reads the remaining bytes.
 func VerifC06Frame() {
 	L := verifU64("compressedLen")
 	verifAssume(L < 1<<28) // stated bound
 	payloadLen := L + indexes.IndexValueSize_CidToOffsetAndSize
 	prefix := encodeUvarint(payloadLen) // real code
 	total := uint64(len(prefix)) + payloadLen
-	verifKnownFinding("C06-S5-readwithsize-prefix-width", total == 128 || total == 16384 || total == 16385 || total == 2097152 || total == 2097153 || total == 2097154 || total == 268435456 || total == 268435457 || total == 268435458 || total == 268435459)
-	readerSkip := uint64(sizeOfUvarint(total)) // real code, as ReadWithSize uses it
+	readerSkip := uint64(sizeOfLengthPrefix(total)) // real code, as ReadWithSize uses it
 	readerLen := total - readerSkip
 	verifAssert(readerSkip == uint64(len(prefix)) && readerLen == payloadLen, "C06.frame: reader skips the writer's prefix and reads the writer's payload")
 	verifReach("end")
